@@ -1003,6 +1003,55 @@ func C17(c *core.Ctx) {
 		c.Floor("R17.21", "transports that connect after construction", nLate, 1)
 	}
 
+	// ---- R17.22 a route registered with an ExpirationPeriod leaves the RIB when the period is
+	// over: somewhere in the forwarder the stored period reaches a timer (time.AfterFunc /
+	// NewTimer / After / Reset) or a comparison with the clock. If it is only stored, echoed
+	// and listed, rib/register answers 200 for an effect that never happens.
+	{
+		enforced := false
+		nLoads := 0
+		for _, pk := range []string{"fw/table", "fw/mgmt", "fw/fw", "fw/face"} {
+			for _, fn := range p.FuncsIn(core.ModPath + "/" + pk) {
+				if strings.HasSuffix(p.File(fn.Pos()), "_test.go") {
+					continue
+				}
+				core.Instrs(fn, func(in ssa.Instruction) {
+					ci, ok := in.(ssa.CallInstruction)
+					if !ok {
+						return
+					}
+					id, okID := core.Callee(ci.Common())
+					if !okID || id.Pkg != "time" {
+						return
+					}
+					switch id.Name {
+					case "AfterFunc", "NewTimer", "After", "Reset", "Add":
+					default:
+						return
+					}
+					for _, a := range ci.Common().Args {
+						v := core.StripConv(a)
+						if u, isU := v.(*ssa.UnOp); isU {
+							if _, path := core.FieldPath(u.X); len(path) > 0 && path[len(path)-1] == "ExpirationPeriod" {
+								if root, _ := core.FieldPath(u.X); root != nil && strings.Contains(root.Type().String(), "Route") {
+									enforced = true
+								}
+							}
+						}
+					}
+				})
+				core.Instrs(fn, func(in ssa.Instruction) {
+					if fa, ok := in.(*ssa.FieldAddr); ok {
+						if tn, fld := core.FieldAddrName(fa); tn == "Route" && fld == "ExpirationPeriod" {
+							nLoads++
+						}
+					}
+				})
+			}
+		}
+		c.Decide(enforced, "R17.22", "route-expiration-enforced", "-", "the stored ExpirationPeriod of a route reaches a timer", fmt.Sprintf("a route's ExpirationPeriod is stored, echoed and listed (%d accesses) but never reaches a timer or a comparison with the clock: rib/register ... ExpirationPeriod=200 answers 200 and the route and its next hop are still there for ever", nLoads))
+	}
+
 	// ---- R17.18 (shared with C10 R10.17) "never crashes": an MTU that management accepts never
 	// leads to a division by zero in the send path
 	c.Import(C10, "R17.18", "the send path divides by the payload room without having established that it is positive: an MTU that faces/create or faces/update accepts, with a PIT token that uses up the room, crashes the forwarder", 1, func(k string) bool {
